@@ -42,6 +42,44 @@ Proof.
   eapply Forall_impl; [intros i; apply item_ok_oof|]. apply run_meta_ok; [exact Hc|right; exact Hf].
 Qed.
 
+(* the build's set of compressor back ends gates everything behind the super block *)
+Lemma gate_comp_forall (P : item -> Prop) avail l :
+  (forall e, P (IComp (Err e))) -> Forall P l -> Forall P (gate_comp avail l).
+Proof.
+  intros HP H. unfold gate_comp. destruct l as [|[[s|e| |]| | | | | | | | | | |] r]; try exact H.
+  destruct (avail (s_comp s)); [exact H|].
+  inversion H as [|? ? H1 _]; subst. constructor; [exact H1|]. constructor; [apply HP|constructor].
+Qed.
+
+Lemma reader_build_safe_l :
+  forall avail codec depth efuel fuel img q, codecs_ok codec ->
+  Forall (fun i => item_crash i = false) (run_reader_build avail codec depth efuel fuel img q).
+Proof.
+  intros. apply gate_comp_forall; [reflexivity|]. apply reader_safe_l; assumption.
+Qed.
+
+Lemma reader_build_total_l :
+  forall avail codec depth efuel fuel img, codecs_ok codec ->
+  (N.to_nat depth_bound <= depth)%nat -> (N.to_nat efuel_bound <= efuel)%nat ->
+  (N.to_nat fuel_bound <= fuel)%nat ->
+  Forall (fun i => item_oof i = false) (run_reader_build avail codec depth efuel fuel img QAll) /\
+  Forall (fun i => item_oof i = false) (run_reader_build avail codec depth efuel fuel img QXattr).
+Proof.
+  intros avail codec depth efuel fuel img Hc Hd He Hf.
+  destruct (reader_total_l codec depth efuel fuel img Hc Hd He Hf) as [A B].
+  split; (apply gate_comp_forall; [reflexivity|assumption]).
+Qed.
+
+(* an unavailable back end stops the run right after the super block *)
+Lemma reader_build_unavailable_l :
+  forall avail codec depth efuel fuel img q s r,
+  run_reader codec depth efuel fuel img q = ISuper (Ok s) :: r -> avail (s_comp s) = false ->
+  run_reader_build avail codec depth efuel fuel img q = [ISuper (Ok s); IComp (Err E_UNSUPPORTED)].
+Proof.
+  intros avail codec depth efuel fuel img q s r E A. unfold run_reader_build. rewrite E. cbn [gate_comp].
+  rewrite A. reflexivity.
+Qed.
+
 Lemma meta_window_l :
   forall uc img m blk off, codec_ok uc -> mr_inv m ->
   mr_inv (fst (mr_seek' uc true img m blk off)) /\
